@@ -71,6 +71,12 @@ def run_case(case):
                 gen = MaxStepGenerator(base_step=2.0 ** -5, step_ratio=[1.6, 3.0, 4.0][ri % 9 // 3], num_steps=10)      # steps 0.03 .. 1e-7: inside every test function's domain
             J = nd.Jacobian(f, method=method, order=order, step=gen)
             val = J(xr)
+            if rec['kind'] == 'affine':
+                # the same point given in single precision (an affine map has the same Jacobian everywhere): the evaluation points must
+                # not be rounded to the dtype of x
+                v32 = nd.Jacobian(f, method=method, order=order, step=gen)(np.array(x0, dtype=np.float32))
+                if np.shape(v32) != np.shape(val) or not (np.abs(np.asarray(v32) - np.asarray(val)) <= 5e-6 * (1.0 + np.abs(np.asarray(val)))).all():          # single-precision steps are not an exact geometric sequence: 1e-7 is what the unchanged library delivers
+                    return ('raise', 'Float32Point: with x given as float32 the Jacobian of an affine map is %s, with float64 x %s' % (np.asarray(v32).ravel()[:4].tolist(), np.asarray(val).ravel()[:4].tolist()))
             keep = np.array(val, copy=True)
             J(np.array(x0) * 1.5 + 0.25)            # a later call of the same object elsewhere
             if not np.array_equal(np.asarray(val), keep, equal_nan=True):
@@ -93,7 +99,34 @@ def run_case(case):
             g1 = np.array(J(np.array(x0, dtype=float), 0.0), copy=True)          # the object again at the first point
             fresh = [np.asarray(nd.Jacobian(f, method=method, order=order)(np.array(xx, dtype=float), t))
                      for xx, t in ((x0, 0.0), (np.array(x0) + d, 0.0), (np.array(x0) + d, d), (x0, 0.0))]
-            same = [bool(np.array_equal(a, b, equal_nan=True)) for a, b in zip((r1, r2, r3, g1), fresh)]
+            # two overlapping calls of the SAME object from two threads with different extra arguments (a barrier in f's first evaluation
+            # makes both calls start before either continues): each call differentiates ITS OWN f(., t)
+            import threading
+            bar, res_t = threading.Barrier(2, timeout=60), {}
+
+            def ft(x, t=0.0, tag=None, _seen={}):
+                if tag is not None and tag not in _seen:
+                    _seen[tag] = True
+                    try:
+                        bar.wait()
+                    except threading.BrokenBarrierError:
+                        pass
+                return f0(x - t)
+            Jt = nd.Jacobian(ft, method=method, order=order)
+
+            def work(tag, xx, t):
+                try:
+                    res_t[tag] = np.array(Jt(xx, t, tag), copy=True)
+                except Exception as ex:          # noqa
+                    res_t[tag] = ex
+            ths = [threading.Thread(target=work, args=('a', np.array(x0, dtype=float), 0.0)), threading.Thread(target=work, args=('b', np.array(x0, dtype=float) + d, d))]
+            for th in ths:
+                th.start()
+            for th in ths:
+                th.join(120)
+            seq_ = [np.asarray(nd.Jacobian(ft, method=method, order=order)(xx, t)) for xx, t in ((np.array(x0, dtype=float), 0.0), (np.array(x0, dtype=float) + d, d))]
+            thr_ok = all(isinstance(res_t.get(k_), np.ndarray) and np.array_equal(res_t[k_], s_, equal_nan=True) for k_, s_ in zip(('a', 'b'), seq_))
+            same = [bool(np.array_equal(a, b, equal_nan=True)) for a, b in zip((r1, r2, r3, g1), fresh)] + [bool(thr_ok)]
             return ('ok', r3.tolist(), list(r3.shape), same, r1.tolist())
         if mode == 'jac-list':      # x given as a python list; result must be the same
             f = multi.vector_fun(rec, x0)
@@ -198,7 +231,7 @@ def run(tier, rep):
         affine = rec['kind'] == 'affine'
         tol = (1e-9 if affine else env_first(method)) * sc
         if mode == 'jac-hist' and not all(o[3]):
-            which = ['first call', 'call after x was changed in place', 'call with another extra argument', 'call at the first point again'][o[3].index(False)]
+            which = ['first call', 'call after x was changed in place', 'call with another extra argument', 'call at the first point again', 'pair of overlapping calls from two threads with different extra arguments'][o[3].index(False)]
             rep.violation('history:jac', dict(case=name, same_as_fresh=o[3]), '%s: the %s of one Jacobian object differs from what a fresh object returns for the same (f, x, args)' % (name, which))
             continue
         if mode in ('jac', 'jac-list', 'jac-hist'):
